@@ -18,6 +18,8 @@
 
 #include "timer.h"
 
+#include "verif_trace.h"
+
 #include <algorithm>
 #include <iostream>
 #include <numeric>
@@ -41,6 +43,7 @@ void TimerResults::showResults(size_t max_results, bool metrics) const
 
         data.reserve(mResults.size());
         data.insert(data.begin(), mResults.cbegin(), mResults.cend());
+        VERIF_EVT("Access", verif::kv("obj", "timerResults") + verif::kv("kind", "R") + verif::kb("held", verif::held(mResultsSync)));
     }
 
     const auto asSeconds = [](std::chrono::milliseconds ms) -> std::chrono::duration<double> {
@@ -59,6 +62,7 @@ void TimerResults::showResults(size_t max_results, bool metrics) const
 
     // lock the whole logging operation to avoid multiple threads printing their results at the same time
     std::lock_guard<std::mutex> l(stdCoutLock);
+    VERIF_EVT("Access", verif::kv("obj", "timerCout") + verif::kv("kind", "W") + verif::kb("held", verif::held(stdCoutLock)));
 
     size_t ordinal = 1; // maybe it would be nice to have an ordinal in output later!
     for (auto iter=data.cbegin(); iter!=data.cend(); ++iter) {
@@ -82,6 +86,7 @@ void TimerResults::addResults(const std::string& name, std::chrono::milliseconds
     std::lock_guard<std::mutex> l(mResultsSync);
 
     mResults[name].push_back(duration);
+    VERIF_EVT("Access", verif::kv("obj", "timerResults") + verif::kv("kind", "W") + verif::kb("held", verif::held(mResultsSync)));
 }
 
 void TimerResults::reset()
